@@ -522,3 +522,46 @@ def r7(ctx):
         yield VIOL("C09-R7", "canonicalize_uri_path/special-case-set", "before the absolute-path test the path is also examined by `%s`: the shortcut to \"/\" (or another early exit) admits more than the empty / \"/\" path" % odd[0][1].split("::")[-1], where=c.span_of_block(odd[0][0]))
     else:
         yield PASS("C09-R7", "canonicalize_uri_path/special-case-set", "%d examination(s) of the input before starts_with('/'): is_empty / == \"/\" only" % n, [])
+
+
+PRESETS = {
+    "signature::SignatureOptions::S3": {"s3": True, "url_encode_form": False},
+    "signature::SignatureOptions::url_encode_form": {"s3": False, "url_encode_form": True},
+    "<signature::SignatureOptions as std::default::Default>::default": {"s3": False, "url_encode_form": False},
+}
+
+
+def preset_results(ctx, rule):
+    """The three ways the crate itself offers to make a SignatureOptions: `S3` = S3 mode without folding,
+    `url_encode_form()` = folding in standard mode, `default()` = neither. Each is a single struct literal whose fields
+    are those constants (or `bool::default()`)."""
+    for path, want in PRESETS.items():
+        b = ctx.fn(path)
+        ctx.count()
+        ags = b.aggregates(adt=r"signature::SignatureOptions$")
+        key = "preset/" + path.split("::")[-1].strip(">")
+        if len(ags) != 1 or len(list(b.return_blocks())) != 1:
+            yield VIOL(rule, key, "%s is not one struct literal (%d found)" % (path, len(ags)), where=loc(b.j["span"]))
+            continue
+        rv = ags[0][2]["rv"]
+        got = {}
+        for fname, o in zip(rv["fields"], rv["ops"]):
+            c = op_const(o)
+            if c is not None:
+                got[fname] = bool(const_value(c))
+                continue
+            od = b.origin_def(o)
+            if od and od[0] == "def" and od[1]["kind"] == "call" and re.search(r"^<bool as std::default::Default>::default$", od[1]["term"].get("resolved_full", "")):
+                got[fname] = False
+            else:
+                got[fname] = None
+        if got != want:
+            yield VIOL(rule, key, "%s builds %s, documented and reviewed as %s: callers asking for one mode get another" % (path.split("::")[-1].strip(">"), got, want), where=loc(ags[0][2]["span"]))
+        else:
+            yield PASS(rule, key, "= %s" % want, [loc(ags[0][2]["span"])])
+
+
+@M.rule("C09-R8", "the option presets select the mode their name says")
+def r8(ctx):
+    for r in preset_results(ctx, "C09-R8"):
+        yield r
